@@ -1525,7 +1525,9 @@ private:
                                                  << " --> " << v + 1 << " from "
                                                  << w.get() << " to ";);
 	// REVISIT(PERFORMANCE): extra call to lookup
-	Wt tightened_w = 2 * (Wt)std::floor((float)w.get() / 2);
+	// w is odd: 2*floor(w/2) = w-1 (computed on integers: a float
+	// cannot represent weights beyond 2^24 exactly)
+	Wt tightened_w = w.get() - 1;
 	m_graph.set_edge(v, tightened_w, v + 1);
         CRAB_LOG("octagon-integer", crab::outs() << tightened_w << "\n";);
       }
@@ -1535,7 +1537,9 @@ private:
                                                  << " --> " << v + 1 << " from "
                                                  << w.get() << " to ";);
 	// REVISIT(PERFORMANCE): extra call to lookup
-	Wt tightened_w = 2 * (Wt)std::floor((float)w.get() / 2);
+	// w is odd: 2*floor(w/2) = w-1 (computed on integers: a float
+	// cannot represent weights beyond 2^24 exactly)
+	Wt tightened_w = w.get() - 1;
 	m_graph.set_edge(v, tightened_w, v - 1);
         CRAB_LOG("octagon-integer", crab::outs() << tightened_w << "\n";);
       }
